@@ -176,16 +176,8 @@ timer is untouched, and the `run` process is given a wake-up token. -/
 theorem new_ack_advances_partial (s : Sender ℚ) (x : AckIn ℚ) (h : Inv s) (hok : AckOk s x) (hnew : x.ackno ≠ s.last_ack) :
     ∃ s', s.step (.ack x) = .ok s' [] ∧ s'.last_ack = x.ackno ∧ s'.tokens = s.tokens + 1 ∧
       ∀ q, q ∈ AL.keys s'.timers ↔ q ∈ AL.keys s.timers ∧ ¬ (q < x.ackno ∨ q = x.pid) := by
-  show ∃ s', s.ackStep x = .ok s' [] ∧ _
-  rw [ackStep_new s x hok hnew]
-  by_cases h0 : s.dupack > 0
-  · simp only [h0, if_true]
-    obtain ⟨T, S, r, _, _, hT, _⟩ := newAck_spec
-      ({ s with cc := CongestionControl.dupack_over s.cc, dupack := 0 } : Sender ℚ) x (weak_dupack_over h.cc) h.keys h.nodup
-    exact ⟨_, r, rfl, rfl, hT⟩
-  · simp only [h0, if_false]
-    obtain ⟨T, S, r, _, _, hT, _⟩ := newAck_spec s x h.cc.weak h.keys h.nodup
-    exact ⟨_, r, rfl, rfl, hT⟩
+  obtain ⟨T, S, r, _, _, hT, _⟩ := ackStep_new_spec s x h.cc h.keys h.nodup hok hnew
+  exact ⟨_, r, rfl, rfl, hT⟩
 
 /-! ### the closed loop (sender ∥ lossy FIFO data path ∥ sink ∥ lossy FIFO ACK path, `OnlVerif/Tcp/Loop.lean`) -/
 
